@@ -68,6 +68,7 @@ type Script struct {
 	pos       int
 	log       []Req
 	cancel    func() // called by a "cancel" fault
+	onCommit  bool   // an "okcancel" request was answered: cancel when its block has been committed
 	discFail  bool   // discovery requests fail
 	discCount int
 	slow      bool // some un-faulted request was slow enough to risk a client timeout
@@ -77,7 +78,7 @@ type Script struct {
 
 func (s *Script) Set(faults []Fault, cancel func(), discFail bool) {
 	s.mu.Lock()
-	s.faults, s.pos, s.log, s.cancel, s.discFail, s.discCount, s.slow = faults, 0, nil, cancel, discFail, 0, false
+	s.faults, s.pos, s.log, s.cancel, s.discFail, s.discCount, s.slow, s.onCommit = faults, 0, nil, cancel, discFail, 0, false, false
 	s.mu.Unlock()
 }
 
@@ -99,6 +100,9 @@ func (s *Script) next(addr int, path string) (Fault, func()) {
 	}
 	s.pos++
 	s.log = append(s.log, Req{Addr: addr, Path: path, F: f})
+	if f.K == "okcancel" {
+		s.onCommit = true
+	}
 	return f, s.cancel
 }
 
@@ -107,6 +111,18 @@ func (s *Script) Activity() int {
 	s.mu.Lock()
 	defer s.mu.Unlock()
 	return s.pos + s.discCount + len(s.log)
+}
+
+// TakeCancelOnCommit: called by the subscriber's store after a block was committed; returns
+// the cancel function when the request that brought the block was an "okcancel" one.
+func (s *Script) TakeCancelOnCommit() func() {
+	s.mu.Lock()
+	defer s.mu.Unlock()
+	if !s.onCommit {
+		return nil
+	}
+	s.onCommit = false
+	return s.cancel
 }
 
 func (s *Script) dead(addr int, path string) {
@@ -161,6 +177,24 @@ func CorruptBody(b []byte) []byte {
 	}
 	c := append([]byte(nil), b...)
 	c[len(c)/2] ^= 0x55
+	return c
+}
+
+// CorruptParseable changes the body so that it still decodes (dag-json): one character inside
+// the value of the "World" string of a chain block.  Anything else gets CorruptBody.
+func CorruptParseable(b []byte) []byte {
+	key := []byte(`"World":"`)
+	i := bytes.Index(b, key)
+	if i < 0 || i+len(key) >= len(b) || b[i+len(key)] == '"' {
+		return CorruptBody(b)
+	}
+	c := append([]byte(nil), b...)
+	j := i + len(key)
+	if c[j] == '0' {
+		c[j] = '1'
+	} else {
+		c[j] = '0'
+	}
 	return c
 }
 
@@ -236,12 +270,15 @@ func (s *Script) Handler(addr int, alive bool, discovery string, up Upstream) ht
 			return
 		}
 		switch f.K {
-		case "ok":
+		case "ok", "okcancel":
 			w.WriteHeader(st)
 			_, _ = w.Write(body)
 		case "corrupt":
 			w.WriteHeader(st)
 			_, _ = w.Write(CorruptBody(body))
+		case "corruptp":
+			w.WriteHeader(st)
+			_, _ = w.Write(CorruptParseable(body))
 		case "truncated":
 			w.Header().Set("Content-Length", fmt.Sprint(len(body)+1))
 			w.WriteHeader(st)
@@ -474,6 +511,9 @@ func (f *faultStream) prepare() {
 	switch flt.K {
 	case "corrupt":
 		c := CorruptBody(body)
+		f.out, f.tailErr = bytes.NewReader(append([]byte(hdr(len(c))), c...)), io.EOF
+	case "corruptp":
+		c := CorruptParseable(body)
 		f.out, f.tailErr = bytes.NewReader(append([]byte(hdr(len(c))), c...)), io.EOF
 	case "truncated":
 		f.out, f.tailErr = bytes.NewReader(append([]byte(hdr(len(body)+1)), body[:len(body)/2]...)), io.EOF
